@@ -69,9 +69,7 @@ def run_c13(facts, out):
                     why = why or 'comparator does not compare against the new point\'s own time'
                 arms = {}
                 for a in mm['arms']:
-                    p = a['pat']
-                    nm = p.get('path', {}).get('name')
-                    arms[nm] = a
+                    arms[_pat_name(a['pat'])] = a
                 if set(arms) != {'Ok', 'Err'}:
                     why = why or 'match does not have exactly the arms Ok(i) / Err(i)'
                 else:
@@ -177,6 +175,16 @@ def run_c13(facts, out):
         out.add('SS-C13', fn, 'lookup', where, not why, why, ordinal=False)
 
 
+def _pat_name(p):
+    if p.get('k') in ('ptstruct', 'pstruct'):
+        return p.get('path', {}).get('name')
+    if p.get('k') == 'pexpr':
+        return p.get('e', {}).get('name')
+    if p.get('k') == 'path':
+        return p.get('name')
+    return None
+
+
 def _ret_is(ctx, hfn, pat):
     body = hfn['body']
     tail = body.get('expr') if body.get('k') == 'block' else body
@@ -185,12 +193,24 @@ def _ret_is(ctx, hfn, pat):
 
 
 def _cae_lookup(ctx, hfn, lookup, ty):
-    hits = find(ctx, hfn['body'], M(lookup, L('control_points'), F(L('self'), 'time')))
-    if len(hits) != 1:
+    """exact idiom: `match control_points.<lookup>(self.time) { Some(e) => self.is_redundant(e),
+    None => self.is_redundant(&T::default()) }` as the whole body (any other shape: cannot establish)"""
+    body = hfn['body']
+    tail = strip(body.get('expr') if body.get('k') == 'block' and not body.get('stmts') else body)
+    if not (isinstance(tail, dict) and tail.get('k') == 'match'):
+        return (False, 'redundancy test is not a single `match %s(self.time)`; the active point or, when there is '
+                       'none, the default point must decide (cannot establish this for another shape)' % lookup)
+    if not M(lookup, L('control_points'), F(L('self'), 'time')).m(ctx, tail['scrut']):
         return (False, 'redundancy is not tested against `%s(self.time)`' % lookup)
-    red = find(ctx, hfn['body'], M('is_redundant', L('self'), ANY()))
-    dflt = find(ctx, hfn['body'], M('is_redundant', L('self'), C('default')))
-    if len(red) < 2 or not dflt:
+    arms = {}
+    for a in tail['arms']:
+        arms[_pat_name(a['pat'])] = a
+    if set(arms) != {'Some', 'None'} or any('guard' in a for a in tail['arms']):
+        return (False, 'the lookup result must be matched as Some(existing) / None without guards')
+    sb = H.pat_bindings(arms['Some']['pat'])
+    if not sb or not M('is_redundant', L('self'), L(sb[0])).m(ctx, arms['Some']['body']):
+        return (False, 'an active point exists but the new point is not compared with it')
+    if not M('is_redundant', L('self'), C('default')).m(ctx, arms['None']['body']):
         return (False, 'when no point is active the new point must be compared with the default point')
     return (True, '')
 
